@@ -9,6 +9,14 @@ CLAIMED = {
     "C15": ("graph", "§6 C15", "Same exploration; for every raising call TLC compares the complete projection before and after (ordered children, ordered link lists, owners, roots, attributes)."),
     "C16": ("graph", "§6 C16", "Same exploration; for every returning call TLC checks post-state in Effects(pre, action) (documented effect plus frame) and documented return values."),
     "C17": ("calendar", "§6 C17", "Calendar expressions (every leaf definition, valid and invalid, alone and under every operator with every other leaf or number; seeded deeper trees) are built with the real classes, probed on every day of a window at two times of day and at validity boundaries, and searched in both directions with small horizons; TLC evaluates the same expression with Calendar.tla (exact rationals) and judges every observation."),
+    "C02": ("sched", "§6 C02", "Scheduling inputs (every forest shape of <=3/4 tasks with seeded link placements on leaves and summaries, attributes, resources, calendars, flags, project start and clock; seeded random inputs up to 8-10 tasks) are executed by the real forward scheduler under a frozen clock; TLC evaluates C02's clauses of Sched.tla on each recorded execution (dates and the usage ledger)."),
+    "C03": ("sched", "§6 C03", "Same executions, both schedulers; TLC replays the usage ledger row by row against the capacity computed from the calendar expression by Calendar.tla, and compares the report's totals, filtered views and resources."),
+    "C04": ("sched", "§6 C04", "Same executions; TLC checks reserved work = remaining work, once per day, consistent with start/end, no rows for milestones/completed/summaries, user-fixed dates kept."),
+    "C06": ("sched", "§6 C06", "Same executions; the input projection before/after, the result's structure, repeated calls on the same and a fresh scheduler, and a second clock value are recorded and compared by TLC; schedulable inputs must return."),
+    "C07": ("sched", "§6 C07", "Same executions; TLC checks start<=end for every task and every roll-up (start, end, estimate, spent, WBS.start/end)."),
+    "C08": ("sched", "§6 C08", "Same executions (forward); TLC checks tightness on the final ledger, the exact date encoding from ledger positions, WBS order of dependency-free leaves, and independence from unrelated tasks with balancing off (paired run)."),
+    "C09": ("sched", "§6 C09", "Same executions (backward); TLC checks deadline, every declared and inherited dependency at task and leaf level, late packing and the end-of-day date encoding."),
+    "C14": ("sched", "§6 C14", "Same executions plus unschedulable inputs (external predecessor without dates, future fixed end, never-available resources, hierarchy-closed cycles) under a watchdog; TLC classifies the outcome and demands RuntimeError exactly for Unschedulable(I)."),
 }
 NOT_YET = {}
 ALL = ["C%02d" % i for i in range(1, 21)]
@@ -37,6 +45,8 @@ def main():
                   "source_commits": [], "add_only": True},
         "engines": [{"name": "graph", "path": "/verif/harness/eng_graph.py", "serves_properties": ["C01", "C05", "C11", "C15", "C16"],
                      "kind_free_text": "TLA+ TaskGraph/MC_TaskGraph/TaskGraphTrace; BFS over real objects + TLC judge"},
+                    {"name": "sched", "path": "/verif/harness/eng_sched.py", "serves_properties": ["C02", "C03", "C04", "C06", "C07", "C08", "C09", "C14"],
+                     "kind_free_text": "TLA+ Sched/SchedTrace (+Calendar); generated inputs executed by the real schedulers, judged by TLC"},
                     {"name": "calendar", "path": "/verif/harness/eng_calendar.py", "serves_properties": ["C17"],
                      "kind_free_text": "TLA+ Calendar/CalendarTrace; enumerated expression trees judged by TLC"}],
         "checks": checks,
